@@ -164,6 +164,7 @@ def selftest_mup(wd, recs):
     muts = []
     rep = set()
     done = set()
+    files, moncid = set(), -1
     for k, r in enumerate(recs):
         if r["ev"] == "reset":
             rep = set()
@@ -190,13 +191,30 @@ def selftest_mup(wd, recs):
             m[k].update({"kind": "panic", "rid": -1, "eq": False})
             muts.append(("rec-panic", m))
             done.add("rec-panic")
-        # the full-monitor write that licenses a clean-up disappears
-        if (r["ev"] == "sop" and r["class"] == "mon" and r["op"] == "write" and "monwrite-dropped" not in done
-                and r["cid"] >= 1):
-            nxt = [x for x in recs[k + 1:k + 400] if x["ev"] == "sop"][:1]
-            if nxt and nxt[0]["class"] == "upd" and nxt[0]["op"] == "remove":
-                muts.append(("monwrite-dropped", recs[:k] + recs[k + 1:]))
-                done.add("monwrite-dropped")
+        # the full-monitor write that licenses a clean-up disappears: the removal of an existing
+        # update file above the previously stored monitor becomes unsafe
+        if r["ev"] == "reset":
+            files, moncid = set(), -1
+        if r["ev"] == "crash":
+            files -= set(r["land"])
+        if r["ev"] == "sop" and r["applied"]:
+            if r["class"] == "mon" and r["op"] == "write":
+                if "monwrite-dropped" not in done and r["cid"] >= 1:
+                    nxt = []
+                    for x in recs[k + 1:]:
+                        if x["run"] != r["run"] or x["ev"] in ("call", "ret", "crash"):
+                            break
+                        if x["ev"] == "sop":
+                            nxt.append(x)
+                    if any(x["class"] == "upd" and x["op"] == "remove" and x["applied"] and x["k"] in files
+                           and x["k"] > moncid for x in nxt):
+                        muts.append(("monwrite-dropped", recs[:k] + recs[k + 1:]))
+                        done.add("monwrite-dropped")
+                moncid = r["cid"]
+            elif r["class"] == "upd" and r["op"] == "write":
+                files.add(r["k"])
+            elif r["class"] == "upd" and r["op"] == "remove" and not r["lazy"]:
+                files.discard(r["k"])
         # a removal reaching above the stored monitor
         if (r["ev"] == "sop" and r["class"] == "upd" and r["op"] == "write" and r["applied"]
                 and "remove-needed" not in done):
